@@ -120,7 +120,8 @@ static bool apply(const string& op, W& x, T& n, T a, T b, uint64_t& wret, uint64
     BIN("-=", -=)
     BIN("*=", *=)
     if (op == "/=") {
-      if (b == 0) return false;
+      // dividing a floating field by zero is defined (IEEE 754: infinities / NaN), dividing an integer field is not
+      if (std::is_integral_v<T> && b == 0) return false;
       if constexpr (std::is_integral_v<T> && std::is_signed_v<T>)
         if (b == (T)-1 && a == std::numeric_limits<T>::min()) return false;
       T r1 = (x /= b);
@@ -220,7 +221,14 @@ static void wrapper_cases(const string& type, const string& ord, vt::Rng& r, int
         W x(a);
         T n;
         uint64_t wret = 0, nret = 0;
-        if (!apply<W, T, S>(op, x, n, a, b, wret, nret)) continue;
+        try {
+          if (!apply<W, T, S>(op, x, n, a, b, wret, nret)) continue;
+        } catch (const exception& e) {
+          vt::J j;
+          j.str("e", "wrapthrew").str("type", type).str("op", op).raw("a", dig(ab, sizeof(T))).raw("b", dig(bb, sizeof(T))).str("what", e.what());
+          tr.emit(j);
+          continue;
+        }
         vt::J j;
         j.str("e", "wrap").str("type", type).str("ord", ord).num("w", sizeof(T)).num("size", sizeof(W)).str("op", op);
         j.raw("a", dig(ab, sizeof(T))).raw("b", dig(bb, sizeof(T)));
@@ -246,8 +254,13 @@ static void foreign_cases(const string& type, const string& ord, const string& r
     for (double d : {-1.0, -3.0, -7.5, -100.25}) as.push_back((T)d);
   for (const char* opc : {"+=", "-=", "*=", "/=", "%="}) {
     string op = opc;
+    vector<R> rs2 = rs;
+    if (fl && op == "/=") {  // a floating field divided by a zero of any type: infinities / NaN, as for the native type
+      rs2.push_back((R)0);
+      if constexpr (std::is_floating_point_v<R>) rs2.push_back((R)-0.0);
+    }
     for (T a : as)
-      for (R b : rs) {
+      for (R b : rs2) try {
         W x(a);
         T n = a;
         T r1, r2;
@@ -261,7 +274,7 @@ static void foreign_cases(const string& type, const string& ord, const string& r
           r1 = (x *= b);
           r2 = (n *= b);
         } else if (op == "/=") {
-          if (b == 0) continue;
+          if (!fl && b == 0) continue;
           r1 = (x /= b);
           r2 = (n /= b);
         } else {
@@ -277,6 +290,10 @@ static void foreign_cases(const string& type, const string& ord, const string& r
         j.raw("a", dig(bits_of(a), sizeof(T))).raw("b", dig(bits_of<R>(b), sizeof(R)));
         j.raw("after", dig(bits_of(n), sizeof(T))).raw("loaded", dig(bits_of<T>((T)x), sizeof(T)));
         j.raw("stored", mem_of(x)).raw("ret", dig(bits_of(r1), sizeof(T))).raw("nret", dig(bits_of(r2), sizeof(T)));
+        tr.emit(j);
+      } catch (const exception& e) {
+        vt::J j;
+        j.str("e", "wrapthrew").str("type", type).str("op", op + rname).raw("a", dig(bits_of(a), sizeof(T))).raw("b", dig(bits_of<R>(b), sizeof(R))).str("what", e.what());
         tr.emit(j);
       }
     tr.nontrivial(type + op + rname);
